@@ -19,8 +19,10 @@ ASSUMPTIONS = [
     "(best amounts summing to 0, only possible with negative amounts) panics in Rust and is not modelled; generated amounts are >= 0",
     "mid-price with one empty side: the property text does not define it; the spec follows the documented and test-pinned convention (best price of the other side)",
     "time_engine (copied verbatim from the event) is not modelled; the manager is run single-threaded over a finite stream (lock contention with readers not modelled)",
+    "the arithmetic kernels the free functions mid_price / volume_weighted_mid_price and struct Level (barter-data/src/books/mod.rs) are additionally tied to the source by translation: tools/rust2lean.py regenerates their Lean definitions from the current Rust text before every build (PREBUILD) and theorem kernels_agree_with_source proves them equal to the model's definitions for all arguments; trusted there: the translator's reading of the small Rust subset it accepts (it rejects everything else) and its fixed Decimal prelude (abs, is_zero, checked_div = None exactly on a zero divisor, MAX/MIN)",
 ]
 SOURCE_FILES = ["barter-data/src/books/mod.rs", "barter-data/src/books/manager.rs", "barter-data/src/books/map.rs", "barter-data/src/subscription/book.rs"]
+PREBUILD = [["python3", "tools/rust2lean.py", "--require", "book"]]
 
 _CLAUSE = {"seq": "sequence_of_last_event", "bids": "levels_equal_map", "asks": "levels_equal_map", "mid": "mid_price",
            "vwmid": "volume_weighted_mid_price", "snap0": "depth_snapshot", "snap1": "depth_snapshot", "snap3": "depth_snapshot",
@@ -51,4 +53,5 @@ LEVEL_TEXT = ("Proof. Lean theorems over the order-book model (lean/BarterModel/
 LEVEL_NOTE = ("Trusted: Lean kernel; axioms propext/Classical.choice/Quot.sound only; the hand-written model (binary_search_by as a scan, sort_unstable_by as a "
               "stable sort), tied by sampled correspondence (500 quick / 30k random + 10.8k small-scope exhaustive thorough); harness, driver, orchestrator. "
               "Hypothesis: Snapshot events carry strictly ordered sides without zero amounts (guaranteed by OrderBook::new for distinct-price non-zero input; "
-              "the code does not enforce it - documented precondition). Exact rationals instead of rust_decimal; time_engine and lock contention not modelled.")
+              "the code does not enforce it - documented precondition). Exact rationals instead of rust_decimal; time_engine and lock contention not modelled. "
+              "Additionally tied by translation: the Lean definitions of the kernels the free functions mid_price / volume_weighted_mid_price and struct Level (barter-data/src/books/mod.rs) are regenerated from the current source on every run (tools/rust2lean.py) and proved equal to the model's (kernels_agree_with_source), so a change of such a kernel breaks a proof obligation directly; the translator and its Decimal prelude are trusted for that tie.")
